@@ -175,37 +175,77 @@ def run(run, tier, seed):
                         run.evaluations += 1
                         if t > 1 and ns >= 10:
                             run.nontriv([cmd, inp, t, ns, rep, " ".join(mk(t, "OUT")[-3:])])
-        # ska lo: identical with a reference, same columns up to order and strand without
+        # ska lo: identical with a reference, same columns up to order and strand without; on inputs with isolated
+        # SNPs and on dense ones (SNPs and indels a few bases apart, where variant groups overlap and compete)
         import derive, lodrv, skacli
         comp = {65: 84, 84: 65, 67: 71, 71: 67}
+        tr = str.maketrans("ACGT", "TGCA")
+        rcs = lambda x: x if x == "-" else x.translate(tr)[::-1]
+
+        def indel_lines(text, free):
+            out = []
+            for line in text.splitlines():
+                if line.startswith("#"):
+                    continue
+                f = line.split("\t")
+                info = dict(x.split("=") for x in f[6].split(";") if "=" in x)
+                rec = (f[3], f[4], info.get("before", ""), info.get("after", ""), tuple(f[9:]))
+                if free:
+                    rec = min(rec, (rcs(f[3]), rcs(f[4]), rcs(info.get("after", "")), rcs(info.get("before", "")), tuple(f[9:])))
+                out.append(rec)
+            return sorted(out)
+
+        def dense_samples(ns, k):
+            L = rng.randint(8 * k, 400)
+            anc = gen.rand_seq(rng, L)
+            evs, p = [], rng.randint(k, 2 * k)
+            while p < L - 2 * k:
+                evs.append((p, rng.choice(["snp", "snp", "ins", "del"]), rng.choice("ACGT"), gen.rand_seq(rng, rng.randint(1, 6)),
+                            [rng.random() < 0.5 for _ in range(ns)]))
+                p += rng.choice([2, 3, 5, k // 2, k, 2 * k, 3 * k])
+            recs = []
+            for si in range(ns):
+                seq = anc
+                for (q, kind, base, ins, car) in sorted(evs, reverse=True):
+                    if car[si]:
+                        seq = (seq[:q] + base + seq[q + 1:]) if kind == "snp" else (seq[:q] + ins + seq[q:]) if kind == "ins" else (seq[:q] + seq[q + len(ins):])
+                recs.append([seq])
+            return anc, recs
+
         sb = skacli.Sandbox("c11lo")
         try:
-            for li in range(2 if tier == "quick" else 8):
-                k = [15, 21, 31, 17][li % 4]
+            nlo = 36 if tier == "quick" else 400
+            for li in range(nlo):
+                k = [15, 21, 31, 17, 11][li % 5]
                 ns = rng.randint(4, 8)
-                sc = derive.lo_snp_scenario(rng, k, ns, rng.randint(400, 700), rng.randint(3, 8))
-                if sc is None:
-                    continue
+                dense = li % 6 != 0
+                if dense:
+                    anc, recs = dense_samples(ns, k)
+                else:
+                    sc = derive.lo_snp_scenario(rng, k, ns, rng.randint(400, 700), rng.randint(3, 8))
+                    if sc is None:
+                        continue
+                    anc, recs = sc["ancestor"], [[x["seq"] for x in r] for r in sc["samples"]]
                 names = ["t%d_%d" % (li, i) for i in range(ns)]
-                recs = [[x["seq"] for x in r] for r in sc["samples"]]
                 sb.reset()
                 ref = os.path.join(sb.dir, "ref%d.fa" % li)
-                vlib.write_fasta(ref, [sc["ancestor"]], names=["anc"])
+                vlib.write_fasta(ref, [anc], names=["anc"])
                 e = sb.build("lo%d" % li, recs, names, k, True)
                 if not e.get("ok"):
                     continue
                 for refmode in (False, True):
                     ep += 1
                     base = None
-                    for t in threads_list:
-                        out = os.path.join(sb.dir, "lo_out_%d_%d_%d" % (li, refmode, t))
+                    # every process draws fresh hash seeds: repeat the single-threaded run too
+                    for ri, t in enumerate([1, 1, 1] + [x for x in threads_list if x > 1]):
+                        out = os.path.join(sb.dir, "lo_out_%d_%d_%d" % (li, refmode, ri))
                         args = ["lo", sb.path("lo%d" % li), out, "--threads", str(t)] + (["-r", ref] if refmode else [])
                         rc, so, se, hook = run_cmd(args, os.path.join(tmp, "trlo.ndjson"))
                         val = None
                         if rc == 0:
                             rd = lambda suffix: open(out + suffix).read() if os.path.exists(out + suffix) else ""
                             if refmode:
-                                val = [rd("_snps.fas"), rd("_snps.vcf"), rd("_pseudo_genomes.fas")]
+                                val = [rd("_snps.fas"), rd("_snps.vcf"), rd("_pseudo_genomes.fas"), indel_lines(rd("_indels.vcf"), False)]
                             else:
                                 nm, seqs = vlib.parse_fasta_text(rd("_snps.fas"))
                                 n = len(seqs[0]) if seqs else 0
@@ -213,16 +253,19 @@ def run(run, tier, seed):
                                 for j in range(n):
                                     c = tuple(ord(x[j]) for x in seqs)
                                     cols.append(min(c, tuple(comp.get(y, y) for y in c)))
-                                val = [nm, sorted(cols)]
-                        if t == threads_list[0]:
+                                val = [nm, sorted(cols), indel_lines(rd("_indels.vcf"), True)]
+                        if os.environ.get("VERIF_DEBUG"):
+                            vlib.log("lo li=%d dense=%s ref=%s ri=%d t=%d rc=%d val=%s" % (li, dense, refmode, ri, t, rc, hash(json.dumps(val))))
+                        if ri == 0:
                             base = val
-                        events.append({"ev": "run", "ep": ep, "cmd": "lo", "input": "skf", "threads": t, "rep": 0, "nsamples": ns, "rc": rc,
+                        events.append({"ev": "run", "ep": ep, "cmd": "lo", "input": "skf", "threads": t, "rep": ri, "nsamples": ns, "rc": rc,
                                        "hook": [{kk: h[kk] for kk in h if kk not in ("pid", "entries")} for h in hook if h["ev"].startswith("pool")],
                                        "same_as_t1": val is not None and val == base, "panic": "", "args": " ".join(args[:1] + args[3:]),
+                                       "dense": dense,
                                        "err": "" if rc == 0 else se.decode(errors="replace")[-300:]})
                         run.evaluations += 1
-                        if t > 1:
-                            run.nontriv(["lo", li, refmode, t])
+                        if ri > 0:
+                            run.nontriv(["lo", li, refmode, t, ri])
         finally:
             sb.close()
     finally:
